@@ -152,7 +152,18 @@ struct TxRec {
 /// returns the op index of a task panic that the D3 cause predicate explains (a `Written` event
 /// was overflow-discarded earlier, which leaves the `written` counters too high)
 pub fn check(hdr: &str, lines: &[String], trace: &[(String, Vec<String>)], mon: &mut dyn Write) -> Option<usize> {
-    let _ = lines;
+    // annotations (`@wf`, `@reject …`) attach to the NEXT op
+    let mut ann: Vec<Vec<String>> = Vec::new();
+    {
+        let mut cur: Vec<String> = Vec::new();
+        for l in lines {
+            if l.starts_with('@') {
+                cur.push(l.clone());
+            } else if !l.trim().is_empty() {
+                ann.push(std::mem::take(&mut cur));
+            }
+        }
+    }
     let mut d3_possible = false;
     let mut session = 0usize;
     let mut d3_panic: Option<usize> = None;
@@ -193,7 +204,6 @@ pub fn check(hdr: &str, lines: &[String], trace: &[(String, Vec<String>)], mon: 
     let mut outstanding_sol: Vec<u64> = Vec::new();
 
     for (k, (op, outs)) in trace.iter().enumerate() {
-        let mut cancel_unsol_after_tx = false;
         let ws: Vec<&str> = op.split_whitespace().collect();
         if ws.is_empty() || dead {
             continue;
@@ -339,6 +349,7 @@ pub fn check(hdr: &str, lines: &[String], trace: &[(String, Vec<String>)], mon: 
             carried_of.clear();
         }
         let mut pending_enable: Vec<(usize, bool)> = Vec::new();
+        let mut disable_cancels: Option<u8> = None;
         // enable / disable unsolicited: tracked from the request itself when it was processed
         // (answered when unicast, `broadcast … processed` when broadcast)
         if ws[0] == "rx" {
@@ -349,19 +360,13 @@ pub fn check(hdr: &str, lines: &[String], trace: &[(String, Vec<String>)], mon: 
             let accepted = anymaster || src == 1;
             let processed = (unicast && accepted && outs.iter().any(|o| o.starts_with("tx ")))
                 || (dst >= 0xFFFD && outs.iter().any(|o| o.starts_with("cb broadcast") && o.ends_with("processed")));
-            if f.len() >= 2 && f[1] == 21 && f[0] & 0xF0 == 0xC0 && unsolicited && processed && unicast && !repeat_request {
-                // DISABLE_UNSOLICITED handled during the wait cancels the series (no callback tells); a request
-                // retained by an aborted solicited confirm wait is processed AFTER the idle pass that may have
-                // started an unsolicited response in this same op: then that new series is the one cancelled
-                let txb: Vec<Vec<u8>> = outs.iter().filter(|o| o.starts_with("tx ")).map(|o| unhex(o.split_whitespace().nth(2).unwrap_or("-"))).collect();
-                let first_uns = txb.iter().position(|b| b.len() >= 2 && b[1] == 0x82);
-                let first_reply = txb.iter().position(|b| b.len() >= 2 && b[1] == 0x81 && (b[0] & 0x0F) == (f[0] & 0x0F));
-                let after = outs.iter().any(|o| o.starts_with("cb sol_new_request")) && matches!((first_uns, first_reply), (Some(u), Some(r)) if u < r);
-                if after {
-                    cancel_unsol_after_tx = true;
-                } else {
-                    outstanding_unsol.clear();
-                }
+            // (a DISABLE_UNSOLICITED whose objects do not parse is answered as malformed and cancels nothing)
+            let malformed = ann.get(k).map(|a| a.iter().any(|x| x.contains("malformed"))).unwrap_or(false);
+            if f.len() >= 2 && f[1] == 21 && f[0] & 0xF0 == 0xC0 && unsolicited && processed && unicast && !repeat_request && !malformed {
+                // DISABLE_UNSOLICITED handled during the wait cancels the series (no callback tells); its own
+                // reply is written before the series ends, like the reply to any other non-READ request
+                // handled during the wait: the cancellation takes effect once that reply has been judged
+                disable_cancels = Some(f[0] & 0x0F);
             }
             if f.len() >= 2 && (f[1] == 20 || f[1] == 21) && f[0] & 0xF0 == 0xC0 && unsolicited && processed && !(repeat_request && unicast) {
                 let objs = &f[2..];
@@ -675,6 +680,10 @@ pub fn check(hdr: &str, lines: &[String], trace: &[(String, Vec<String>)], mon: 
             } else {
                 outstanding_sol.clear();
             }
+            if !uns && disable_cancels == Some(b[0] & 0x0F) {
+                outstanding_unsol.clear();
+                disable_cancels = None;
+            }
             carried_of.insert(b.clone(), carried.clone());
             if !uns {
                 last_sol_fin = b[0] & 0x40 != 0;
@@ -682,11 +691,11 @@ pub fn check(hdr: &str, lines: &[String], trace: &[(String, Vec<String>)], mon: 
             txs.push(TxRec { session, uns, seq: b[0] & 0x0F, carried });
             sent.insert(b.clone());
         }
+        if disable_cancels.is_some() {
+            outstanding_unsol.clear();
+        }
         for (c, v) in pending_enable {
             enabled[c] = v;
-        }
-        if cancel_unsol_after_tx {
-            outstanding_unsol.clear();
         }
         for o in outs {
             if o.starts_with("cb sol_wait") {
